@@ -2,6 +2,7 @@ package compiler
 
 import (
 	"fmt"
+	"strings"
 
 	"github.com/grafana/cog/internal/ast"
 )
@@ -15,11 +16,25 @@ type RenameObject struct {
 
 func (pass *RenameObject) Process(schemas []*ast.Schema) ([]*ast.Schema, error) {
 	visitor := &Visitor{
-		OnObject: pass.processObject,
-		OnRef:    pass.processRef,
+		OnObject:      pass.processObject,
+		OnRef:         pass.processRef,
+		OnConstantRef: pass.processConstantRef,
+		OnDisjunction: pass.processDisjunction,
 	}
 
-	return visitor.VisitSchemas(schemas)
+	schemas, err := visitor.VisitSchemas(schemas)
+	if err != nil {
+		return nil, err
+	}
+
+	// the entry point names an object too
+	for _, schema := range schemas {
+		if schema.Package == pass.From.Package && strings.EqualFold(schema.EntryPoint, pass.From.Object) {
+			schema.EntryPoint = pass.To
+		}
+	}
+
+	return schemas, nil
 }
 
 func (pass *RenameObject) processObject(visitor *Visitor, schema *ast.Schema, object ast.Object) (ast.Object, error) {
@@ -40,9 +55,46 @@ func (pass *RenameObject) processObject(visitor *Visitor, schema *ast.Schema, ob
 	return object, nil
 }
 
+// References are matched like the object itself is: exact package,
+// case-insensitive name. Otherwise `rename_object: {from: pkg.foo}` would
+// rename the object `Foo` and leave every reference to it dangling.
 func (pass *RenameObject) processRef(_ *Visitor, _ *ast.Schema, def ast.Type) (ast.Type, error) {
-	if def.Ref.ReferredPkg == pass.From.Package && def.Ref.ReferredType == pass.From.Object {
+	if pass.From.MatchesRef(def.AsRef()) {
 		def.Ref.ReferredType = pass.To
+	}
+
+	return def, nil
+}
+
+func (pass *RenameObject) processConstantRef(_ *Visitor, _ *ast.Schema, def ast.Type) (ast.Type, error) {
+	if def.ConstantReference.ReferredPkg == pass.From.Package && strings.EqualFold(def.ConstantReference.ReferredType, pass.From.Object) {
+		def.ConstantReference.ReferredType = pass.To
+	}
+
+	return def, nil
+}
+
+func (pass *RenameObject) processDisjunction(visitor *Visitor, schema *ast.Schema, def ast.Type) (ast.Type, error) {
+	var err error
+
+	// the discriminator mapping refers to the branches by type name
+	for _, branch := range def.Disjunction.Branches {
+		if !branch.IsRef() || !pass.From.MatchesRef(branch.AsRef()) {
+			continue
+		}
+
+		for discriminator, typeName := range def.Disjunction.DiscriminatorMapping {
+			if typeName == branch.AsRef().ReferredType {
+				def.Disjunction.DiscriminatorMapping[discriminator] = pass.To
+			}
+		}
+	}
+
+	for i, branch := range def.Disjunction.Branches {
+		def.Disjunction.Branches[i], err = visitor.VisitType(schema, branch)
+		if err != nil {
+			return ast.Type{}, err
+		}
 	}
 
 	return def, nil
